@@ -106,7 +106,10 @@ pub fn run_tls(m: &TlsMaterial, c: &TlsCase) -> Result<TlsObs, String> {
     if let Some(o) = &c.app_override {
         app = o.clone();
     }
+    // the wedge guard scales with the input: one-byte reads over a megabyte command are slow, not stuck
+    let budget = 2_000_000 + 8 * app.len() as u64;
     let mut w = TlsWorld::new(conn, sslreq, app);
+    w.budget_ops = budget;
     w.first_cut = c.first_cut;
     w.cycle = c.cycle.clone();
     w.write_limit = c.write_limit;
@@ -243,7 +246,7 @@ fn judge(m: &TlsMaterial, c: &TlsCase, o: &TlsObs, rep: &mut Report, d: &dyn Fn(
         return;
     }
     if o.world.wedged {
-        fail("wedge", "operation budget exhausted".into(), rep);
+        fail("wedge", format!("operation budget exhausted: {} operations ({} reads, {} writes) for {} raw client bytes ({} served), {} reads at end of stream; first read {} bytes, read sizes {:?}, write limit {}", o.world.nops, o.world.nread, o.world.nwrite, o.world.client_raw.len(), o.world.served, o.world.eof_reads, c.first_cut, c.cycle, if c.write_limit == usize::MAX { -1 } else { c.write_limit as i64 }), rep);
         return;
     }
     if let Some(e) = &o.world.client_error {
@@ -518,7 +521,13 @@ pub fn run(ctx: &Ctx) -> Report {
         if !close_notify {
             cmds.push(Cmd::quit());
         }
-        let c = TlsCase { tls13: rng.bool(), with_cert: rng.bool(), server_mode: 0, user: CANARY_USER.to_vec(), cmds, scripts: m.conv.scripts.clone(), first_cut: if rng.bool() { rng.range(1, 60) as usize } else { 0 }, cycle: if rng.bool() { vec![] } else { vec![rng.range(1, 2000) as usize] }, write_limit: wl, close_notify, raw_limit: None, hs_variant: 0, app_override: None, seqs: (1, 2), auth_reject: None, record_per_command: rng.bool(), write_fault: None };
+        let big_input = cmds.iter().map(|c| c.payload.len()).sum::<usize>() > 100_000;
+        let mut c = TlsCase { tls13: rng.bool(), with_cert: rng.bool(), server_mode: 0, user: CANARY_USER.to_vec(), cmds, scripts: m.conv.scripts.clone(), first_cut: if rng.bool() { rng.range(1, 60) as usize } else { 0 }, cycle: if rng.bool() { vec![] } else { vec![rng.range(1, 2000) as usize] }, write_limit: wl, close_notify, raw_limit: None, hs_variant: 0, app_override: None, seqs: (1, 2), auth_reject: None, record_per_command: rng.bool(), write_fault: None };
+        if big_input && !c.cycle.is_empty() {
+            // the real parser zero-fills its doubling buffer before every read: tiny reads over megabytes
+            // cost minutes (a cost bound of the harness, as in the plaintext mega workload)
+            c.cycle = vec![65_536 + c.cycle[0] * 37];
+        }
         let o = match run_tls(mref, &c) {
             Ok(o) => o,
             Err(e) => {
